@@ -226,6 +226,8 @@ func (e *Expr) src(s *Session) string {
 		return "catch(" + e.Sub[0].src(s) + ").err"
 	case 'Z':
 		return e.X
+	case 'Q':
+		return "cancelonce()"
 	}
 	panic("bad expr")
 }
@@ -272,6 +274,8 @@ func (e *Expr) enc() string {
 		return "K " + e.Sub[0].enc()
 	case 'Z':
 		return "Z " + Hx([]byte(e.X))
+	case 'Q':
+		return "Z " + Hx([]byte("cancelonce()")) // no deadlines / cancellation in the model: SKIP
 	}
 	panic("bad expr")
 }
@@ -393,8 +397,20 @@ func closedFn(d *Def) bool {
 }
 
 func (s *Session) closed() bool {
+	var opaque func(e *Expr) bool
+	opaque = func(e *Expr) bool {
+		if e.K == 'Z' || e.K == 'Q' { // raw source, cancellation: outside the model's language, so outside its fragment
+			return true
+		}
+		for _, x := range e.Sub {
+			if opaque(x) {
+				return true
+			}
+		}
+		return false
+	}
 	for _, in := range s.Inputs {
-		if in.K == 'Z' { // raw source: outside the model's language, so outside its fragment
+		if opaque(in) {
 			return false
 		}
 	}
@@ -455,7 +471,9 @@ func runImpl(c *Ctx, s *Session, off bool) ([]seg, string) {
 			return nil, fmt.Sprintf("parse error on %q: %v", src, p.Errors())
 		}
 		c.Eval()
+		cancel := st.SetContext(context.Background(), 0) // a live, cancellable context per input, as repl.EvalOne does
 		res, pan := evalProtected(st, prog)
+		cancel()
 		if pan != "" {
 			return nil, fmt.Sprintf("panic on %q: %s", src, pan)
 		}
@@ -796,6 +814,12 @@ func corpus() []*Session {
 		s.Writers, s.Callers = []int{pick.D, e.D}, []int{g.D, f.D}
 		s.Inputs = []*Expr{asg("x", li(0)), asg("pick", pick), asg("g", g), cn("g"), cn("g"), asg("x", li(1)), cn("g"), asg("e", e), asg("f", f), cn("f"), cn("f"),
 			asg("x", li(0)), cn("f"), cn("g")}
+	})
+	// an interrupted evaluation swallowed by catch() is not a result: never remembered (direct oracle only)
+	mk("regress:interrupted-call-remembered", func(s *Session) {
+		s.Inputs = []*Expr{asg("slow", s.fn("", []string{"n"}, seq(prt(lit(vs("s"))), cancelOnce(), add(v("n"), li(1))))),
+			asg("g", s.fn("", []string{"n"}, cerr(cn("slow", v("n"))))), asg("f", s.fn("", []string{"n"}, seq(asg("t", cn("g", v("n"))), v("t")))),
+			cn("f", li(1)), cn("g", li(1)), cn("f", li(1)), cn("g", li(1)), cn("slow", li(1))}
 	})
 	// big arguments that print alike (1 vs 1.0) must not share an entry; direct oracle only (outside the model)
 	mk("mech:big-arguments-int-vs-float", func(s *Session) {
@@ -1494,6 +1518,69 @@ func (c *Ctx2) bigArgSession() *Session {
 	return s
 }
 
+// cancelonce(): a harness extension (not flagged DontCache, like sleep) that cancels the state's context the FIRST time
+// it runs in a session and is a no-op afterwards - a deterministic stand-in for "the deadline hit during the first call".
+var cancelSeen = map[*eval.State]bool{}
+
+func registerCancelOnce() {
+	extensions.MustCreate(object.Extension{
+		Name: "cancelonce", MinArgs: 0, MaxArgs: 0, Help: "verification harness: cancel the evaluation context once",
+		Callback: func(env any, _ string, _ []object.Object) object.Object {
+			if st, ok := env.(*eval.State); ok && !cancelSeen[st] {
+				cancelSeen[st] = true
+				if st.Cancel != nil {
+					st.Cancel()
+				}
+			}
+			return object.NULL
+		},
+	})
+}
+
+func cancelOnce() *Expr { return &Expr{K: 'Q'} }
+
+// an evaluation interrupted (context cancelled) inside a call whose error is swallowed by catch(): nothing computed from it
+// may be remembered; the same calls are repeated afterwards with a live context. Outside the model (no deadlines there): SKIP.
+func (c *Ctx2) interruptSession() *Session {
+	s := &Session{Tag: "random-interrupt"}
+	r := c.R
+	var slow *Expr
+	switch r.Intn(3) {
+	case 0:
+		slow = seq(cancelOnce(), add(v("n"), li(1)))
+	case 1:
+		slow = seq(prt(lit(vs("s"))), cancelOnce(), prt(lit(vs("t"))), add(v("n"), li(1)))
+	default:
+		slow = iff(lt(v("n"), li(0)), li(0), seq(cancelOnce(), arr(v("n"), li(1))))
+	}
+	s.Inputs = append(s.Inputs, asg("slow", s.fn("", []string{"n"}, slow)))
+	var g *Expr
+	switch r.Intn(3) {
+	case 0:
+		g = cerr(cn("slow", v("n")))
+	case 1:
+		g = iff(cerr(cn("slow", v("n"))), li(-1), li(1))
+	default:
+		g = seq(prt(cerr(cn("slow", v("n")))), li(3))
+	}
+	s.Inputs = append(s.Inputs, asg("g", s.fn("", []string{"n"}, g)))
+	names := []string{"g"}
+	if r.Bool() {
+		s.Inputs = append(s.Inputs, asg("f", s.fn("", []string{"n"}, seq(asg("t", cn("g", v("n"))), prt(v("t")), v("t")))))
+		names = append(names, "f")
+	}
+	first := names[len(names)-1]
+	if r.Pct(20) { // interrupted at the top level, before the call
+		s.Inputs = append(s.Inputs, seq(cancelOnce(), cn(first, li(1))))
+	} else {
+		s.Inputs = append(s.Inputs, cn(first, li(1)))
+	}
+	for i, n := 0, 3+r.Intn(4); i < n; i++ {
+		s.Inputs = append(s.Inputs, cn(append(names, "slow")[r.Intn(len(names)+1)], li(int64(1+r.Intn(2)))))
+	}
+	return s
+}
+
 func runC04(c0 *Ctx) {
 	c := &Ctx2{Ctx: c0, seen: map[string]int{}}
 	log.SetOutput(io.Discard)
@@ -1501,6 +1588,7 @@ func runC04(c0 *Ctx) {
 	if err := extensions.Init(nil); err != nil {
 		panic(err)
 	}
+	registerCancelOnce()
 	c.Rule = "sessions = REPL histories over one persistent eval.State, generated as abstract programs of coq/model/Memo.v and printed as grol: " +
 		"corpus (known findings, repaired defects, mechanism cases) then random sessions (functions/lambdas defined and redefined, called with equal and " +
 		"different arguments incl. +-0/NaN/strings/arrays/>4 args, closures over lower-case/upper-case/function-valued variables, outer reads and writes, " +
@@ -1509,7 +1597,7 @@ func runC04(c0 *Ctx) {
 		"oracle: no call of such a writer or of its callers may appear in the cache); each run cache on and cache off on the implementation (direct oracle) and on the extracted model. " +
 		"non-trivial = distinct session that ends with a non-empty cache"
 	// every identifier the generator uses must be free in a fresh state (not an extension, not a predefined function)
-	for _, name := range []string{"f", "g", "h", "id", "mk", "a", "b", "c", "d", "w", "k", "x", "y", "t", "n", "m", "p", "q", "r", "s", "X", "N", "F", "fib", "f2", "k4", "v", "nx", "tw", "tt", "m", "vf", "wy", "A", "pick", "fa", "fb"} {
+	for _, name := range []string{"f", "g", "h", "id", "mk", "a", "b", "c", "d", "w", "k", "x", "y", "t", "n", "m", "p", "q", "r", "s", "X", "N", "F", "fib", "f2", "k4", "v", "nx", "tw", "tt", "m", "vf", "wy", "A", "pick", "fa", "fb", "slow"} {
 		st := eval.NewState()
 		st.Out, st.LogOut = io.Discard, io.Discard
 		res, _ := evalProtected(st, parser.New(lexer.New(name)).ParseProgram())
@@ -1546,7 +1634,11 @@ func runC04(c0 *Ctx) {
 			case 2:
 				c.session(c.impureResultSession())
 			default:
-				c.session(c.bigArgSession())
+				if (i/40)%2 == 0 {
+					c.session(c.bigArgSession())
+				} else {
+					c.session(c.interruptSession())
+				}
 			}
 		default:
 			c.session(c.randomSession(false))
